@@ -1,7 +1,9 @@
 #!/bin/sh
 # entry point for MANIFEST commands: builds the driver from source, then runs it
-cd /verif || exit 2
+here=$(cd "$(dirname "$0")" && pwd)
+cd "$here" || exit 2
 . ./env.sh
+export VERIF_ROOT="$here"
 mkdir -p bin
 go build -o bin/verif ./cmd/verif || exit 2
 exec ./bin/verif "$@"
